@@ -51,7 +51,7 @@ def go_env():
 
 def sh(cmd, cwd=None, env=None, timeout=None, input=None):
     p = subprocess.run(cmd, cwd=cwd, env=env, timeout=timeout, input=input,
-                       stdout=subprocess.PIPE, stderr=subprocess.STDOUT, text=True)
+                       stdout=subprocess.PIPE, stderr=subprocess.STDOUT, text=True, errors="replace")
     return p.returncode, p.stdout
 
 
